@@ -220,13 +220,13 @@ Definition read_frame_core (f : mfile) (st : astate) (buf_len : Z) : res (Z * as
     let dispose := negb (Z.land (mf_flags fr) 1 =? 0) in
     let clear_color := if dispose_next_frame st then Some (background_color f) else None in
     let* frame := decode_payload fr frame_width frame_height in
-    (* fill starting canvas with clear color; (self.width * self.height * 4) as usize is u32 arithmetic
-       (defect F11, not among this model's repairs: a debug build panics on overflow) *)
+    (* fill starting canvas with clear color; [F11] repaired: the canvas length is computed with
+       usize::checked_mul and a product that does not fit in usize is DecodingError::ImageTooLarge *)
     let* canvas0 :=
       match acanvas st with
       | Some c => Ok c
-      | None => if m_w f * m_h f * 4 <? 4294967296 then Ok (new_canvas (m_w f * m_h f * 4) (background_color f))
-                else Panic POverflow
+      | None => if m_w f * m_h f * 4 <? 18446744073709551616 then Ok (new_canvas (m_w f * m_h f * 4) (background_color f))
+                else Err EImageTooLarge
       end in
     let* canvas :=
       composite_frame canvas0 (m_w f) (m_h f) clear_color frame frame_x frame_y frame_width frame_height
